@@ -135,7 +135,19 @@ pub open spec fn ms_inv(s: MemoryStore) -> bool {
     &&& forall|k: Seq<u8>| #[trigger] s.memory@.contains_key(k) ==> s.memory@[k].ts <= s.timer.now()
 }
 
+impl Storage {
+    // DashMap::new() as called by MemoryStore::new (R7: the name `DashMap` resolves to the stand-in)
+}
+pub type DashMap = Storage;
+
 impl MemoryStore {
+//@fn memory_store/store.rs | impl MemoryStore | new | ret=r | safety=C10 | sigsub=Arc<dyn timer::Timer + Send + Sync>=>TimerS
+    requires
+        timer.now() < 0x8000_0000_0000_0000,
+    ensures
+        ms_inv(r) && r.memory@ =~= Map::<Seq<u8>, Item>::empty() && r.cas_id.val() == 1 && r.timer == timer, // @ob C01,C02 store.new.empty_and_counter_at_one
+//@endfn
+
 //@fn memory_store/store.rs | impl MemoryStore | get_cas_id | ret=r | mutself | safety=C10,C02
     requires
         ms_inv(*old(self)), cas_room(old(self).cas_id.val()),
